@@ -122,7 +122,9 @@ def run(chk):
         return lang, mode, events, meta
 
     with cf.ThreadPoolExecutor(max_workers=8) as ex:
-        futs = [ex.submit(do_config, lang, mode) for lang in langs for mode in ("single", "multi")]
+        # quick: Python only in folder mode (the backend with the most state kept across the modules of one run)
+        futs = [ex.submit(do_config, lang, mode) for lang in langs for mode in ("single", "multi")] + \
+               ([] if thorough else [ex.submit(do_config, "python", "multi")])
         configs = [f.result() for f in futs]
     for lang, mode, events, meta in configs:
         ok, matched, tres = common.trace_validate("Trace_Writer", events, timeout=900)
